@@ -35,7 +35,7 @@ class CProc:
     """Contract of one C function."""
 
     def __init__(self, name, params, result=OBJ, requires=None, ensures=None, modifies=(), loops=None, api=None, globals=None,
-                 fields=None, note='', callees=None):
+                 fields=None, note='', callees=None, split=None, hide=()):
         self.name = name
         self.key = 'c:' + name
         self.params = list(params)          # [(name, Ty)]
@@ -49,6 +49,9 @@ class CProc:
         self.fields = fields or {}          # struct member -> heap field name
         self.note = note
         self.callees = callees or {}        # static C functions called: name -> CProc (used by contract)
+        self.hide = tuple(hide)             # labels of ensures clauses that callers do not need (proved, but not assumed at call sites)
+        self.split = split                  # Ctx (after a call) -> [z3 Bool]: case distinction made explicit at every call site
+        #                                     (one path per case plus one for "none of them": nothing is lost)
 
 
 class CState:
@@ -63,6 +66,7 @@ class CState:
         s.env = dict(self.env)
         s.pc = list(self.pc)
         s.trace = list(self.trace)
+        s.checked = getattr(self, 'checked', 0)
         return s
 
     def assume(self, f):
@@ -243,6 +247,11 @@ class CExec:
             return vbool({'<': ai < bi, '>': ai > bi, '<=': ai <= bi, '>=': ai >= bi}[op])
         if op in ('+', '-', '*'):
             return vint({'+': ai + bi, '-': ai - bi, '*': ai * bi}[op])
+        if op in ('<<', '>>', '&', '|'):
+            ca, cb = z3.simplify(ai), z3.simplify(bi)
+            if z3.is_int_value(ca) and z3.is_int_value(cb):      # constant folding only (flag masks of type-check macros)
+                x, y = ca.as_long(), cb.as_long()
+                return vint({'<<': x << y, '>>': x >> y, '&': x & y, '|': x | y}[op])
         raise CUnsupported('binary %s' % op)
 
     def assign(self, target, v, st):
@@ -327,6 +336,24 @@ class CExec:
         return out
 
     # ------------------------------------------------------------------ statements: [(state, kind, payload)]
+    def feasible(self, st):
+        """False only when the ground (quantifier-free) part of the path condition is refuted by z3: such a path cannot be
+        executed and is dropped (sound: fewer hypotheses, still unsatisfiable).  Anything else keeps the path."""
+        n = len(st.pc)
+        if getattr(st, 'checked', 0) == n:
+            return True
+        s = z3.Solver()
+        s.set('rlimit', 300000)           # deterministic resource limit (no timer thread: the solver pool is forked later)
+        for f in st.pc:
+            if not _is_quantified(f):
+                s.add(f)
+        ok = s.check() != z3.unsat
+        if ok:
+            st.checked = n
+        else:
+            self.pruned = getattr(self, 'pruned', 0) + 1
+        return ok
+
     def run(self, stmts, st):
         states = [st]
         results = []
@@ -334,6 +361,8 @@ class CExec:
             nxt = []
             for cur in states:
                 for s2, kind, val in self.step(s, cur):
+                    if not self.feasible(s2):
+                        continue
                     if kind == FALL:
                         nxt.append(s2)
                     else:
@@ -582,6 +611,26 @@ class CExec:
         return self.obls
 
 
+_QMEMO = {}
+
+
+def _is_quantified(f):
+    k = f.get_id()
+    if k not in _QMEMO:
+        _QMEMO[k] = (_has_quantifier(f), f)        # the term is kept alive so that its id stays unique
+    return _QMEMO[k][0]
+
+
+def _has_quantifier(t, seen=None):
+    seen = {} if seen is None else seen
+    if t.get_id() in seen:
+        return False
+    seen[t.get_id()] = True
+    if z3.is_quantifier(t):
+        return True
+    return any(_has_quantifier(c, seen) for c in t.children())
+
+
 def assigned_vars(n):
     out = set()
     if not n or not n.get('kind'):
@@ -619,8 +668,18 @@ def callee_contract(proc):
         c1 = Ctx(args, st.heap, pre, res=res.t)
         c1.exc, c1.exc0 = exc1, c0.exc
         for label, f in _norm(proc.ensures(c1), 'post'):
-            st.assume(f)
-        return [(st, res)]
+            if label not in proc.hide:
+                st.assume(f)
+        if proc.split is None:
+            return [(st, res)]
+        cases = list(proc.split(c1))
+        out = []
+        for n, f in enumerate(cases + [z3.Not(z3.Or(*cases))]):
+            s2 = st.clone()
+            s2.assume(f)
+            s2.trace.append('%s:case%d' % (proc.name, n))
+            out.append((s2, res))
+        return out
     return handler
 
 
